@@ -37,6 +37,9 @@ pub struct Outcome {
     pub snapshot: Option<String>,
     #[serde(skip)]
     pub pair_answer: Option<(bool, String)>,
+    /// C17 randomized runs: the schedule as executed ("thread@point thread@point ...")
+    #[serde(skip)]
+    pub schedule: Option<String>,
 }
 
 static RUN_COUNTER: AtomicU64 = AtomicU64::new(0);
@@ -273,6 +276,30 @@ pub fn spawn_pair(mut job: PairJob) -> PairRx {
     PairRx { rx, handle: Some(handle), tid }
 }
 
+/// Randomized runs: the job's thread registers with the scheduler (slot), parks at its start and
+/// at the boundaries the scheduler's seed selects.
+pub fn spawn_sched(job: PairJob, slot: usize) -> PairRx {
+    let (tx, rx) = std::sync::mpsc::channel();
+    let tid = std::sync::Arc::new(AtomicU64::new(0));
+    let tid2 = tid.clone();
+    let handle = std::thread::Builder::new()
+        .stack_size(16 << 20)
+        .spawn(move || {
+            tid2.store(unsafe { libc::syscall(libc::SYS_gettid) } as u64, Ordering::SeqCst);
+            entropy::install(job.seed);
+            crate::sched::thread_start(slot);
+            let r = std::panic::catch_unwind(std::panic::AssertUnwindSafe(|| job.run()));
+            crate::sched::thread_done();
+            entropy::uninstall();
+            let _ = tx.send(match r {
+                Ok(s) => s,
+                Err(_) => "UNWOUND".to_string(),
+            });
+        })
+        .expect("spawn scheduled thread");
+    PairRx { rx, handle: Some(handle), tid }
+}
+
 pub fn arm_pause(at: u64, job: PairJob) {
     *THIRD_JOB.lock().unwrap_or_else(|e| e.into_inner()) = None;
     *THIRD_STATE.lock().unwrap_or_else(|e| e.into_inner()) = None;
@@ -322,6 +349,13 @@ fn install_write_hook() {
     crate::verif_hooks::install(Some(std::sync::Arc::new(|p| {
         if let crate::verif_hooks::Point::Iter(_) = p {
             reader_iteration_hook();
+        }
+        // randomized multi-thread runs: every boundary is a potential parking point
+        match p {
+            crate::verif_hooks::Point::BeforeWrite(n) => crate::sched::at_boundary(false, n),
+            crate::verif_hooks::Point::LockIntent(n) => crate::sched::at_boundary(true, n),
+            crate::verif_hooks::Point::Iter(n) => crate::sched::at_boundary(false, n),
+            _ => {}
         }
         if matches!(p, crate::verif_hooks::Point::BeforeWrite(_) | crate::verif_hooks::Point::LockIntent(_)) {
             let b = BOUNDS.fetch_add(1, Ordering::SeqCst) + 1;
@@ -557,7 +591,8 @@ pub fn execute_pair(plan: &Plan, verbose: bool) -> Outcome {
     }
     let (k, e, kind) = pool[((slot.wrapping_mul(7919) + 13) % pool.len() as u64) as usize].clone();
     if let Some(op2) = flag_u64(plan, "pair_op2=") {
-        return execute_triple(plan, verbose, base, (k, e, kind), op, op2 % 13, slot);
+        let rand = flag_u64(plan, "pair_rand=");
+        return execute_triple(plan, verbose, base, (k, e, kind), op, op2 % 13, slot, rand);
     }
     let mut outs = Vec::new();
     for mode in ["before", "after", "during"] {
@@ -700,7 +735,7 @@ pub fn execute_pair(plan: &Plan, verbose: bool) -> Outcome {
 /// itself parked before its n-th own boundary, where C is started on a third thread; then B
 /// and A are released in that order. The outcome must be the outcome of one of the six serial
 /// orders of A, B and C (each executed on the same deterministic history), and all three finish.
-fn execute_triple(plan: &Plan, verbose: bool, base: Outcome, at: (u64, u64, String), op: u64, op2: u64, slot: u64) -> Outcome {
+fn execute_triple(plan: &Plan, verbose: bool, base: Outcome, at: (u64, u64, String), op: u64, op2: u64, slot: u64, rand: Option<u64>) -> Outcome {
     let (k, e, kind) = at;
     let park_b = 1 + (slot / 3) % 3;
     let run = |mode: &str, verbose: bool| {
@@ -712,11 +747,17 @@ fn execute_triple(plan: &Plan, verbose: bool, base: Outcome, at: (u64, u64, Stri
         p.flags.push(format!("pair_op={}", op));
         p.flags.push(format!("pair_op2={}", op2));
         p.flags.push(format!("pair_park2={}", park_b));
+        if let Some(r) = rand {
+            p.flags.push(format!("pair_rand={}", r));
+            if let Some(op3) = flag_u64(plan, "pair_op3=") {
+                p.flags.push(format!("pair_op3={}", op3));
+            }
+        }
         execute_one(&p, verbose)
     };
     let orders = ["serial:BC|", "serial:CB|", "serial:B|C", "serial:C|B", "serial:|BC", "serial:|CB"];
     let serial: Vec<Outcome> = orders.iter().map(|m| run(m, false)).collect();
-    let mut out = run("triple", verbose);
+    let mut out = run(if rand.is_some() { "rand" } else { "triple" }, verbose);
     let own: Vec<Violation> = out.violations.iter().filter(|v| v.property == "C17").cloned().collect();
     out.violations = own;
     for o in serial.iter() {
@@ -726,7 +767,12 @@ fn execute_triple(plan: &Plan, verbose: bool, base: Outcome, at: (u64, u64, Stri
     }
     let mut stats: BTreeMap<String, u64> = BTreeMap::new();
     stats.insert("probe.c17.cases".into(), 1);
-    stats.insert("probe.c17.three_thread_cases".into(), 1);
+    stats.insert(if rand.is_some() { "probe.c17.random_schedule_cases".into() } else { "probe.c17.three_thread_cases".into() }, 1);
+    for (k, v) in out.stats.iter() {
+        if k.starts_with("c17.rand.") || k.starts_with("probe.c17.rand.") {
+            stats.insert(k.clone(), *v);
+        }
+    }
     for k in [
         "probe.c17.no_such_message_now",
         "probe.c17.same_protocol_not_paired",
@@ -742,10 +788,23 @@ fn execute_triple(plan: &Plan, verbose: bool, base: Outcome, at: (u64, u64, Stri
     stats.insert(format!("c17.A.{}", kind), 1);
     stats.insert(format!("c17.B.{}", PAIR_OPS[op as usize]), 1);
     stats.insert(format!("c17.C.{}", PAIR_OPS[op2 as usize]), 1);
-    let what = format!(
-        "A = {} (event {}, parked before boundary {}), B = {} (parked before its boundary {}), C = {}",
-        kind, e, k, PAIR_OPS[op as usize], park_b, PAIR_OPS[op2 as usize]
-    );
+    let what = if let Some(r) = rand {
+        format!(
+            "A = {} (event {}), B = {}, C = {}{}; seeded schedule {} over all boundaries: {}",
+            kind,
+            e,
+            PAIR_OPS[op as usize],
+            PAIR_OPS[op2 as usize],
+            flag_u64(plan, "pair_op3=").map(|o| format!(", D = {}", PAIR_OPS[(o % 13) as usize])).unwrap_or_default(),
+            r,
+            out.schedule.clone().unwrap_or_default()
+        )
+    } else {
+        format!(
+            "A = {} (event {}, parked before boundary {}), B = {} (parked before its boundary {}), C = {}",
+            kind, e, k, PAIR_OPS[op as usize], park_b, PAIR_OPS[op2 as usize]
+        )
+    };
     if out.harness_error.is_none() && out.violations.is_empty() {
         let snaps: Vec<Option<&String>> = serial.iter().map(|o| o.snapshot.as_ref()).collect();
         if let (Some(d), true) = (out.snapshot.as_ref(), snaps.iter().all(|s| s.is_some())) {
@@ -773,6 +832,7 @@ fn execute_triple(plan: &Plan, verbose: bool, base: Outcome, at: (u64, u64, Stri
     out.stats = stats;
     let mut hs: Vec<u64> = serial.iter().map(|o| o.trace_hash).collect();
     hs.push(out.snapshot.as_ref().map(|s| crate::entropy::hash_str(s)).unwrap_or(0));
+    hs.push(out.schedule.as_ref().map(|s| crate::entropy::hash_str(s)).unwrap_or(0));
     out.trace_hash = entropy::mix(&hs);
     out.events += serial.iter().map(|o| o.events).sum::<u64>();
     let _ = base;
@@ -833,6 +893,7 @@ pub fn execute_one(plan: &Plan, verbose: bool) -> Outcome {
             bound_names: BOUND_NAMES.with(|v| v.borrow().clone()),
             snapshot: sim.snapshot.take(),
             pair_answer: sim.pair_answer.take(),
+            schedule: sim.schedule.take(),
         };
         drop(sim);
         let _ = std::fs::remove_dir_all(&dir);
